@@ -628,12 +628,12 @@ def propC13 (c : Case) : PropRes :=
       if rq.all (fun (_, rs) => rs.err ≠ "") then { tags := ["ik-none-committed"] }
       else { ok := false, sig := "C13:success-without-log", note := k }
     | some w =>
+      -- the request that recorded the key: a task, or a setup step
+      let setupWinner := ((c.setup.zip c.setupResps).find? (fun (r, rs) => r.ik = k && rs.err = "" && rs.log = w.id)).map (·.1)
       let winners := rq.filter (fun (_, rs) => rs.err = "" && !rs.hit)
-      match winners with
-      | [(wr, wrs)] =>
-        if wrs.log ≠ w.id then { ok := false, sig := "C13:winner-log-mismatch", note := k } else
+      let judge := fun (wr : JReq) (skipTask : String) =>
         firstFail (rq.map (fun (r, rs) =>
-          if r.task = wr.task then {} else
+          if r.task = skipTask then {} else
           let same := inputText r = inputText wr
           if rs.err = "" then
             if same && rs.hit && rs.log = w.id && rs.tx = w.tx then { tags := ["ik-hit"] }
@@ -647,7 +647,11 @@ def propC13 (c : Case) : PropRes :=
           else
             { ok := false, sig := "C13:retry-reruns-operation:different-input-gets-business-error-not-validation",
               note := s!"key {k}: {r.task} (different input) answered {rs.err}", tags := ["ik-business-error-different-input"] }))
-      | _ => { ok := false, sig := "C13:not-exactly-one-winner", note := s!"{k}: {winners.length} non-hit successes" }))
+      match setupWinner, winners with
+      | some sw, [] => judge sw ""
+      | none, [(wr, wrs)] =>
+        if wrs.log ≠ w.id then { ok := false, sig := "C13:winner-log-mismatch", note := k } else judge wr wr.task
+      | _, _ => { ok := false, sig := "C13:not-exactly-one-winner", note := s!"{k}: {winners.length} non-hit successes" }))
 
 /-- C14 on the real output -/
 def propC14 (c : Case) : PropRes :=
@@ -682,7 +686,14 @@ def propC15 (c : Case) : PropRes :=
 /-- C12 on the real output: in commit order, the commits of an import are contiguous and precede
     every write on the ledger; a rejected import has no effect -/
 def propC12 (c : Case) : PropRes :=
-  firstFail ((c.reqs.zip c.resps).filter (fun (r, _) => r.kind = "import") |>.map (fun (imp, irs) =>
+  let crashSig := "C12:write-bypassing-state-tracker:id-collision-nil-deref-panic"
+  let crash : List PropRes := (c.reqs.zip c.resps).filterMap (fun ((r : JReq), (rs : JResp)) =>
+    if rs.err = "panic" || rs.elems.any (fun (e : JResp) => e.err = "panic") then
+      let nt := s!"{r.task} ({r.kind}) panicked: transaction id from an unsynchronised sequence collided with an imported one"
+      some ({ ok := false, sig := crashSig, note := nt, tags := ["panic"] } : PropRes)
+    else none)
+  let imports := (c.reqs.zip c.resps).filter (fun (r, _) => r.kind = "import")
+  firstFail (crash ++ imports.map (fun (imp, irs) =>
     let l := ledgerOf c imp
     let seq := c.commits.filter (fun t => ledgerOf c (reqFor c t) = l)
     let isImp := fun t => t = imp.task
